@@ -128,6 +128,8 @@ pub struct Run<'a> {
     /// unconstrained joins with an index-valued member: the indices whose items are recorded
     pub watch: Vec<u32>,
     pub variant: &'a str,
+    /// which consumer drives a sequential join
+    pub cons: usize,
     pub threads: usize,
     pub tree: Vec<bool>,
     pub probe: Vec<Entity>,
@@ -141,7 +143,35 @@ macro_rules! drive {
         let run: &Run = $run;
         let mut gets: Vec<Value> = vec![];
         let items: Vec<Value> = match run.variant {
-            "join" => ($tuple).join().map(|$pat| json!($body)).collect(),
+            // (the iterator's provided methods are consumers an implementation may override: they take turns)
+            "join" => match run.cons % 5 {
+                0 => ($tuple).join().map(|$pat| json!($body)).collect(),
+                1 => {
+                    let mut v = vec![];
+                    let mut it = ($tuple).join();
+                    while let Some($pat) = it.next() {
+                        v.push(json!($body));
+                    }
+                    v
+                }
+                2 => ($tuple).join().fold(vec![], |mut v, $pat| {
+                    v.push(json!($body));
+                    v
+                }),
+                3 => {
+                    let mut v = vec![];
+                    let mut it = ($tuple).join();
+                    while let Some($pat) = it.nth(0) {
+                        v.push(json!($body));
+                    }
+                    v
+                }
+                _ => {
+                    let mut v = vec![];
+                    ($tuple).join().for_each(|$pat| v.push(json!($body)));
+                    v
+                }
+            },
             "lend" => {
                 let mut v = vec![];
                 let mut it = ($tuple).lend_join();
@@ -542,7 +572,8 @@ pub fn run_script(script: &Value) -> Value {
     watch.extend([0u32, 1, 63, 64, 4095, 4096, 262143, 262144, (1 << 24) - 1]);
     watch.sort();
     watch.dedup();
-    let run = Run { count: std::cell::Cell::new(None), pcount: std::cell::Cell::new(None), watch, variant: &variant, threads, tree, probe };
+    let run = Run { count: std::cell::Cell::new(None), pcount: std::cell::Cell::new(None), watch, variant: &variant,
+                    cons: script["tid"].as_u64().unwrap_or(0) as usize, threads, tree, probe };
     let ents_js: Vec<Value> = live.iter().map(|&e| ej(e)).collect();
     let r = catch(|| exec_shape(&mut s, &shape, &run));
     let (ucount, uwatch) = (run.count.get(), run.watch.clone());
